@@ -45,6 +45,7 @@ type Config struct {
 	Witnesses   int
 	UnwindViol  bool
 	Lazy        bool
+	NoSlice     bool
 	Debug       bool
 }
 
@@ -83,6 +84,8 @@ type Engine struct {
 	kfSeen       map[string]bool
 	initMode     bool
 	cheapDischarged int
+	sliceHits    int
+	satFullOnSat bool
 	redirect     map[string]string
 }
 
@@ -260,6 +263,59 @@ func (e *Engine) curInstr(s *State) ssa.Instruction {
 // ---- solver helpers
 
 func (e *Engine) sat(s *State, extra ...*Term) (Result, Model) {
+	if !e.cfg.NoSlice && len(extra) > 0 {
+		sl := slicePC(s.pc, extra)
+		if len(sl) < len(s.pc) {
+			as := append(append([]*Term(nil), sl...), extra...)
+			if e.cfg.Debug {
+				e.solver.Ctx = e.pos(e.curInstr(s)) + " [sliced]"
+			}
+			r, m := e.solver.Check(as, true)
+			if r != Sat {
+				return r, m
+			}
+			// complete the model with the independent part (needed for counterexamples / model pool)
+			e.sliceHits++
+			if e.satFullOnSat {
+				return e.satFull(s, extra...)
+			}
+			rest := restOf(s.pc, sl)
+			if len(rest) > 0 {
+				r2, m2 := e.solver.Check(rest, true)
+				if r2 == Unsat {
+					return Unsat, nil // pc itself infeasible (lazy arm)
+				}
+				if r2 == Sat {
+					for k, v := range m2 {
+						if _, ok := m[k]; !ok {
+							m[k] = v
+						}
+					}
+				} else {
+					return e.satFull(s, extra...)
+				}
+			}
+			return r, m
+		}
+	}
+	return e.satFull(s, extra...)
+}
+
+func restOf(pc, sl []*Term) []*Term {
+	in := map[*Term]bool{}
+	for _, t := range sl {
+		in[t] = true
+	}
+	var out []*Term
+	for _, t := range pc {
+		if !in[t] {
+			out = append(out, t)
+		}
+	}
+	return out
+}
+
+func (e *Engine) satFull(s *State, extra ...*Term) (Result, Model) {
 	as := append(append([]*Term(nil), s.pc...), extra...)
 	if e.cfg.Debug {
 		e.solver.Ctx = e.pos(e.curInstr(s))
